@@ -86,13 +86,25 @@ fn history(seed: u64, idx: u64, virtual_clock: bool) -> Local {
     let mode = if cfg!(miri) { idx % 3 } else { idx % 4 };
     let service = simple_dns::Name::new("x").unwrap().into_owned();
     let own = simple_dns::Name::new("own.x").unwrap().into_owned();
-    let (tx, _rx) = std::sync::mpsc::channel();
+    let (tx, rx) = std::sync::mpsc::channel();
     let mut chan = if mode == 2 { Some(tx) } else { None };
-    let (atx, _arx) = tokio::sync::mpsc::channel(256);
+    let (atx, arx) = tokio::sync::mpsc::channel(256);
     let mut achan = Some(atx);
+    // in half of the histories with a channel the application drops its receiving end at some step: what is received after that
+    // (and in particular the first packet after it) must reach the store all the same
+    let (mut rx, mut arx) = (Some(rx), Some(arx));
+    let hang_up_at = if idx % 8 >= 4 { Some(Rng::for_case(seed, "c20-hang-up", idx).usize(0, steps)) } else { None };
     let rt = if mode == 3 { tokio::runtime::Builder::new_current_thread().build().ok() } else { None };
     out.count(&format!("histories_mode_{}", ["direct-store", "sync-ingest", "sync-ingest-with-channel", "tokio-ingest-with-channel"][mode as usize]));
     for step in 0..steps {
+        if hang_up_at == Some(step) {
+            rx = None;
+            arx = None;
+            if mode >= 2 {
+                out.count("histories_whose_on_discovery_receiver_was_dropped_midway");
+                out.log.push(format!("{}: the application drops the receiving end of its on_discovery channel", step));
+            }
+        }
         let op = r.below(20);
         match op {
             0..=3 => {
